@@ -46,6 +46,11 @@ CHECKS = {
          "All 1024 key subsets of a 10-key universe under a build-time overlay that scales the block size to 3 (0..4 blocks), the block-boundary sizes at the real block size, and doctor-resolved twins of corrupted tables are produced by the real code and checked clause by clause (row count, full blocks, key order, hashes and block-index entries recomputed by an independent encoder, table index, profile) and by doctor.Diagnose. Merge results and received tables go through the same oracle in C05/C07.",
          "Trusted: the 150-line structural oracle with its independent string-list/block encoder; meow hash and s2 libraries; the overlay that replaces the literal block size (fail-closed).",
          "DESIGN.md §4 C03"),
+ "C06": ("exploration",
+         "bounded-exhaustive enumeration of object field values at the format's boundaries; exhaustive enumeration of packfile header lengths",
+         "Commits, tables, blocks, block indices (built both ways), table profiles (every subset of optional fields), string and uint lists are written by the real encoders over field values at the format's boundaries (empty, newline, non-UTF8, 65535/65536/70000 bytes, rows crossing 64 KiB, 0..3 parents, 7 instants x 5 zones), read back, compared, re-encoded byte-for-byte, saved (key = hash of bytes, idempotent) and fetched; over-limit text must be refused with an error. The packfile header codec is run on every length up to 2^26 (quick) / every 32-bit length (thorough) and on 2^k windows up to 2^63 for all three object types.",
+         "Trusted: independent string-list/block encoder; meow hash. The header codec is reached through an overlay-added export file (fail-closed stub when its signatures change). Field lengths away from the 16-bit boundary are not enumerated.",
+         "DESIGN.md §4 C06"),
 }
 
 NOT_YET = {}
